@@ -200,6 +200,9 @@ def scenario_of(c):
     if c.get('wire_scale'):
         # the same pins, pitch, lead and duct with a thinner wire (P/D, H/D and W/D unchanged)
         dsn['wire_diameter'] = round(dsn['wire_diameter'] * float(c['wire_scale']), 9)
+    if c.get('ftf_add'):
+        # the same pins in a duct a few micrometres wider (all ratios but W/D identical, W/D within 1e-3)
+        dsn['duct_ftf'] = [round(x + float(c['ftf_add']), 9) for x in dsn['duct_ftf']]
     return S.single(dsn, 1.0, length=LENGTH + zoff, coolant=COOLANT,
                     power={'rings': n, 'nduct': 1, 'cells': [0.0, LENGTH + zoff],
                            'q': 1000.0, 'pins': 'uniform'})
@@ -468,7 +471,7 @@ def run_case(c):
         base['zoff'] = c['zoff']
     if c.get('phantom'):
         base['phantom'] = True
-    for k in ('scale', 'wire_scale'):
+    for k in ('scale', 'wire_scale', 'ftf_add'):
         if c.get(k):
             base[k] = c[k]
     ex = {'accept': {}, 'levels': {}, 'dpdz': {}, 'bundle_eq': 0, 'passed_by_x_distance': 0, 'approx_fallback_levels': 0,
@@ -912,12 +915,82 @@ def pair_cases(tier):
                         c.update({'probe': 'pair', 'how': 'wire', 'grid': 'none', 'ff': fam, 'fs': fam, 'mix': fam, 'k': k,
                                   'first': first})
                         out.append(c)
+            # and the same pins in a duct 2 / 5 (20) micrometres wider: nearly, not exactly, the same ratios
+            for k in ((2.0e-6, 5.0e-6) if tier == 'quick' else (2.0e-6, 5.0e-6, 2.0e-5)):
+                for first in ('model', 'original'):
+                    c = dict(d)
+                    c.update({'probe': 'pair', 'how': 'near', 'grid': 'none', 'ff': fam, 'fs': fam, 'mix': fam, 'k': k,
+                              'first': first, 'slot': 1 + sum(1 for x in out if x.get('how') == 'near')})
+                    out.append(c)
     return out
 
 
+def _flat(name, v, out):
+    if isinstance(v, dict):
+        for k_ in sorted(v, key=str):
+            _flat(name + '.' + str(k_), v[k_], out)
+    elif isinstance(v, (list, tuple)) and not all(isinstance(x, (int, float, np.number)) for x in v):
+        for i, x in enumerate(v):
+            _flat('%s[%d]' % (name, i), x, out)
+    elif isinstance(v, (list, tuple, np.ndarray, int, float, np.number)) and not isinstance(v, bool):
+        try:
+            out[name] = np.asarray(v, dtype=float).tobytes()
+        except (TypeError, ValueError):
+            pass
+
+
+def _constants_after(seq):
+    """build the bundles of seq one after the other (real input file -> Reactor); -> every number of the LAST one's
+    correlation constants and correlated parameters, flattened to bytes"""
+    rr = None
+    for cc in seq:
+        with S.Built(scenario_of(cc)) as b:
+            rr = b.reactor().assemblies[0].rodded
+    out = {}
+    _flat('corr_constants', rr.corr_constants, out)
+    _flat('coolant_int_params', rr.coolant_int_params, out)
+    return out
+
+
+def run_near(c):
+    """B built after its near twin A (the same pins in a duct a few micrometres narrower / wider) == B built alone, both
+    in forked children of a worker that never builds either: every correlation constant bit for bit"""
+    from .c16 import in_child
+    r = new_result()
+    V = r['violations']
+    base = {k_: v for k_, v in c.items() if k_ not in ('probe', 'k', 'first', 'how', 'slot')}
+    # every case has its own duct width (50 um apart): nothing any earlier case left in this worker is near it
+    A = dict(base, ftf_add=c['slot'] * 5.0e-5)
+    B = dict(base, ftf_add=c['slot'] * 5.0e-5 + c['k'])
+    if c['first'] == 'original':
+        A, B = B, A
+    ref = in_child(_constants_after, [B], budget=120)
+    got = in_child(_constants_after, [A, B], budget=120)
+    r['states'], r['transitions'], r['traces'], r['nontrivial'] = 2, 3, 2, True
+    if ref[0] != 'ok' or got[0] != 'ok':
+        V.append(violation('near-construction', c, 'construction failed: %s / %s' % (ref[:3], got[:3])))
+        r['outcome'] = 'failed'
+        return r
+    for k_ in sorted(ref[1]):
+        if got[1].get(k_) != ref[1][k_]:
+            a_ = np.frombuffer(ref[1][k_])
+            b_ = np.frombuffer(got[1][k_]) if k_ in got[1] else a_ * np.nan
+            dev = float(np.max(np.abs(a_ - b_))) if a_.shape == b_.shape else float('inf')
+            V.append(violation('constants-depend-on-history', dict(c, field=k_),
+                               '%s of a bundle built after its near twin (duct %.0f um apart) differs from the same '
+                               'bundle built alone' % (k_, abs(c['k']) * 1e6), dev, 0.0, 0.0,
+                               site='field:' + k_.split('[')[0]))
+            break
+    r['outcome'] = 'ok' if not V else 'violation'
+    return r
+
+
 def run_pair(c):
+    if c.get('how') == 'near':
+        return run_near(c)
     base = {k_: v for k_, v in c.items() if k_ not in ('probe', 'k', 'first', 'how')}
-    other = dict(base, wire_scale=c['k']) if c.get('how') == 'wire' else dict(base, scale=c['k'])
+    other = dict(base, wire_scale=c['k']) if c.get('how') == 'wire' else \
+        (dict(base, ftf_add=c['k']) if c.get('how') == 'near' else dict(base, scale=c['k']))
     seq = [other, base] if c['first'] == 'model' else [base, other]
     r = None
     for i, cc in enumerate(seq):
@@ -940,7 +1013,7 @@ def replay(body):
         from . import reports
         return reports.replay(body)
     if body['scenario'].get('probe') == 'pair':
-        sc = {k_: v for k_, v in body['scenario'].items() if k_ not in ('member', 'level', 'scale', 'wire_scale')}
+        sc = {k_: v for k_, v in body['scenario'].items() if k_ not in ('member', 'level', 'scale', 'wire_scale', 'ftf_add')}
         r = guarded(run_pair, sc, 600)
         for v in r['violations']:
             print('VIOLATION property=C12 replay=(inline) kind=%s site=%s %s' % (v['kind'], v.get('site'), v['what']))
